@@ -20,6 +20,7 @@ Local Open Scope list_scope.
 
 (* ------------------------------------------------------------------ 1. the source is what was modelled *)
 Lemma skel_readByte_ok : C06gen.skel_readByte = expected_readByte. Proof. reflexivity. Qed.
+Lemma skel_readBytes_ok : C06gen.skel_readBytes = expected_readBytes. Proof. reflexivity. Qed.
 Lemma skel_PluginMessageData_ReadFrom_ok : C06gen.skel_PluginMessageData_ReadFrom = expected_PluginMessageData_ReadFrom. Proof. reflexivity. Qed.
 Lemma skel_NBTField_WriteTo_ok : C06gen.skel_NBTField_WriteTo = expected_NBTField_WriteTo. Proof. reflexivity. Qed.
 Lemma skel_NBTField_ReadFrom_ok : C06gen.skel_NBTField_ReadFrom = expected_NBTField_ReadFrom. Proof. reflexivity. Qed.
@@ -54,12 +55,19 @@ Definition ast0 : ast := {| a_len := 0; a_n := 0; a_nn := 0; a_olds := fun _ => 
 Definition eUnknown : N := 99.           (* a statement this interpreter gives no meaning to *)
 Definition seq := String.eqb.
 
-Definition mk_text := "array.Set(reflect.MakeSlice(array.Type(), int(Len), int(Len)))".
+Definition first_text := "first := min(int(Len), maxPreallocElems)".
+Definition mk_text := "array.Set(reflect.MakeSlice(array.Type(), first, first))".
+Definition more_text := "more := min(int(Len)-i, i)".
+Definition grow_text := "array.Set(reflect.AppendSlice(array, reflect.MakeSlice(array.Type(), more, more)))".
 Definition setlen_text := "array.SetLen(int(Len))".
 Definition loop_body_ok (body : list cstmt6) : bool :=
   match body with
-  | [KOther a; KOther b; KOther c; KIf i d [KReturn e] []] =>
-      seq a "elem := array.Index(i)" && seq b "nn, err := elem.Addr().Interface().(FieldDecoder).ReadFrom(r)"
+  | [KIf gi gc [KOther g1; KOther g2] []; KOther a; KOther b; KOther c; KIf i d [KReturn e] []] =>
+      (* `if i == array.Len() { more := ...; append `more` ZERO elements }`: only in a freshly made slice (a reused
+         one has Len elements), and the elements added are zero like the ones MakeSlice gave: the slot an element
+         is decoded into holds the zero value either way *)
+      seq gi "" && seq gc "i == array.Len()" && seq g1 more_text && seq g2 grow_text
+      && seq a "elem := array.Index(i)" && seq b "nn, err := elem.Addr().Interface().(FieldDecoder).ReadFrom(r)"
       && seq c "n += nn" && seq i "" && seq d "err != nil" && seq e "n, err"
   | _ => false
   end.
@@ -94,10 +102,11 @@ Fixpoint ary_read (ps : list cstmt6) (st : ast) {struct ps} : rd :=
         | _, _ => Crash eUnknown
         end
       else if seq init "" && seq cond "array.Cap() < int(Len)" then
-        (* THE RESIZE DECISION: a fresh slice of zero elements, or the old backing array re-sliced *)
+        (* THE RESIZE DECISION: a fresh slice of zero elements (its first `first` ones now, the others as the
+           loop reaches them), or the old backing array re-sliced *)
         match th, el with
-        | [KOther a], [KOther b] =>
-            if seq a mk_text && seq b setlen_text then
+        | [KOther a0; KOther a], [KOther b] =>
+            if seq a0 first_text && seq a mk_text && seq b setlen_text then
               let backing := fst (list_of old) ++ snd (list_of old) in
               let olds := if (Z.of_N (lenN backing) <? a_len st)%Z then (fun _ => zero)
                           else (fun i => nth (N.to_nat i) backing zero) in
